@@ -231,7 +231,11 @@ def long_history(n, seed):
         if r:
             return r
         if i % 7 == 3:
-            long_bad = " and ".join("c%d_%d eq %d" % (i, j, j) for j in range(14)) + " and name eq 'two  blanks' #"
+            base = " and ".join("c%d_%d eq %d" % (i, j, j) for j in range(14)) + " and name eq 'two  blanks'"
+            # the same long failing input twice in a row: failing right after a complete filter (no blank in
+            # between), after a blank, in the middle, at an unterminated literal, at a stray parenthesis
+            long_bad = [base + "#", base + " #", base[:60] + "#" + base[60:], base + " and x eq 'unterminated",
+                        base + ")", base + "\x00"][(i // 7) % 6]
             for bad in ("(" * (i % 5 + 1) + "a%d eq" % i, "a%d eq 'unterminated %d" % (i, i), long_bad, long_bad,
                         "f%d(" % i, "a%d eq 1)" % i):
                 got = outcome(w.lexer, w.parser, bad)
